@@ -175,10 +175,11 @@ Definition dhcp_body (mp : maps) (e : env) (dl : N) : M N :=
               if 18 + 4 >? dl then exit XDP_PASS else
               tci2 <- rd16 18 ;;
               ethp3 <- rd16 20 ;;
-              ret (ethp3, 22, true, N.land (ntohs tci) 4095, N.land (ntohs tci2) 4095)
-            else ret (ethp2, 18, true, N.land (ntohs tci) 4095, 0)
-          else ret (ethp, 14, false, 0, 0)) ;;
-  let '(proto, l3, tagged, vlan_id, inner_vlan_id) := hdr in
+              ret (ethp3, 8, true, N.land (ntohs tci) 4095, N.land (ntohs tci2) 4095)
+            else ret (ethp2, 4, true, N.land (ntohs tci) 4095, 0)
+          else ret (ethp, 0, false, 0, 0)) ;;
+  let '(proto, vlan_offset, tagged, vlan_id, inner_vlan_id) := hdr in
+  let l3 := 14 + vlan_offset in
   if negb (proto =? htons 0x0800) then exit XDP_PASS else
   if l3 + 20 >? dl then exit XDP_PASS else
   ipproto <- rd8 (l3 + 9) ;;
@@ -249,7 +250,7 @@ Definition dhcp_body (mp : maps) (e : env) (dl : N) : M N :=
               let dhcp_len := u16t (240 + opt_len) in
               let udp_len := u16t (8 + dhcp_len) in
               let ip_len := u16t (20 + udp_len) in
-              let l2_len := u16t (14 + (l3 - 14)) in
+              let l2_len := u16t (14 + vlan_offset) in
               let total_len := u16t (l2_len + ip_len) in
               wr16 (l3 + 2) (htons ip_len) ;;;
               wr16 (udp + 4) (htons udp_len) ;;;
